@@ -324,7 +324,9 @@ func (e *Engine) VerifyFunction(fn *ssa.Function, con *Contract) (v *FV) {
 		hits := map[string]int{}
 		dropped := 0
 		for _, o := range v.obls {
-			keep := o.Kind == "smoke" || o.Kind == "cover" || o.Kind == "spec"
+			// loop invariants are assumed at the loop head, so they are always claimed (an unproved invariant would make
+			// the claimed clauses vacuous)
+			keep := o.Kind == "smoke" || o.Kind == "cover" || o.Kind == "spec" || strings.HasPrefix(o.Kind, "inv.")
 			for _, f := range con.Focus {
 				if strings.HasSuffix(o.Name, "."+f) || strings.Contains(o.Name, "."+f+".") {
 					keep = true
